@@ -281,6 +281,11 @@ pub fn install_panic_recorder() {
             .or_else(|| info.payload().downcast_ref::<&str>().map(|s| s.to_string()))
             .unwrap_or_default();
         let loc = info.location().map(|l| format!("{}:{}", l.file(), l.line())).unwrap_or_default();
+        if msg.contains("unsafe precondition") || loc.starts_with("/rustc/") {
+            // possibly a non-unwinding panic (std's unsafe-precondition checks abort right after this
+            // hook): leave the message on stderr for the parent's classification
+            eprintln!("panicked: {msg} at {loc}");
+        }
         LAST_PANIC.with(|p| *p.borrow_mut() = Some((msg, loc)));
     }));
 }
